@@ -7,6 +7,7 @@ from .isomsg import *
 from .ipmfile import *
 
 PROPERTY = 'C19'
+DEBUG_LOG = ['mci_ipm_encode/cp500-latin_1/1014-1014', 'mci_ipm_param_encode/cp500-latin_1/1014-vbs']      # obligations that are also explored with debug logging switched on
 PYTHON_O = ['mci_ipm_encode/cp500-latin_1/1014-1014', 'mideu-convert/cp500-latin_1/vbs', 'mci_ipm_param_encode/cp500-latin_1/vbs-1014']      # obligations that are also explored with the modules compiled as under python -O
 ASSUMPTIONS = [
     'input files are written by the real IpmWriter / VbsWriter on RopeFiles; messages from the C01 families (PDS, concrete ICC, numerics, date tokens), '
